@@ -1,7 +1,133 @@
-use crate::State;
+// C09: character presets and gear-set files.
+use crate::ops_patch::unrle;
 use crate::util::*;
-use serde_json::Value;
+use crate::{State, guarded};
+use physis::chardat::{CharacterData, CustomizeData};
+use physis::gearsets::{GearSet, GearSets, GearSlot, GearSlotType};
+use physis::race::{Gender, Race, Tribe};
+use serde_json::{Value, json};
 
-pub fn run(_st: &mut State, op: &str, _cmd: &Value) -> Value {
-    toolerror(&format!("unknown op {op}"))
+fn project_char(c: &CharacterData) -> Value {
+    let z = &c.customize;
+    let f: Vec<u8> = vec![
+        z.race as u8, z.gender.clone() as u8, z.age, z.height, z.tribe as u8, z.face, z.hair, z.enable_highlights as u8,
+        z.skin_tone, z.right_eye_color, z.hair_tone, z.highlights, z.facial_features, z.facial_feature_color,
+        z.eyebrows, z.left_eye_color, z.eyes, z.nose, z.jaw, z.mouth, z.lips_tone_fur_pattern, z.race_feature_size,
+        z.race_feature_type, z.bust, z.face_paint, z.face_paint_color, z.voice,
+    ];
+    json!({"version": c.version, "fields": f, "timestamp": bytes(&c.timestamp.to_le_bytes()), "comment": sbytes(&c.comment)})
+}
+
+fn build_char(cmd: &Value) -> Option<CharacterData> {
+    let f = get_bytes(&cmd["fields"]);
+    if f.len() != 27 {
+        return None;
+    }
+    let ts = get_bytes(&cmd["timestamp"]);
+    Some(CharacterData {
+        version: geti(cmd, "version") as u32,
+        customize: CustomizeData {
+            race: Race::try_from(f[0]).ok()?,
+            gender: Gender::try_from(f[1]).ok()?,
+            age: f[2], height: f[3],
+            tribe: Tribe::try_from(f[4]).ok()?,
+            face: f[5], hair: f[6], enable_highlights: f[7] == 1, skin_tone: f[8], right_eye_color: f[9],
+            hair_tone: f[10], highlights: f[11], facial_features: f[12], facial_feature_color: f[13],
+            eyebrows: f[14], left_eye_color: f[15], eyes: f[16], nose: f[17], jaw: f[18], mouth: f[19],
+            lips_tone_fur_pattern: f[20], race_feature_size: f[21], race_feature_type: f[22], bust: f[23],
+            face_paint: f[24], face_paint_color: f[25], voice: f[26],
+        },
+        timestamp: u32::from_le_bytes([ts[0], ts[1], ts[2], ts[3]]),
+        comment: get_str(&cmd["comment"]),
+    })
+}
+
+fn slot_type(i: usize) -> Option<GearSlotType> {
+    GearSlotType::try_from(i).ok()
+}
+
+fn project_gear(g: &GearSets) -> Value {
+    let sets: Vec<Value> = g.gearsets.iter().map(|s| match s {
+        None => json!({"some": false}),
+        Some(s) => {
+            let mut slots = vec![];
+            for i in 0..14 {
+                if let Some(t) = slot_type(i) {
+                    if let Some(sl) = s.slots.get(&t) {
+                        slots.push(json!({"s": i + 1, "id": w32(sl.id), "glam": w32(sl.glamour_id.unwrap_or(0))}));
+                    }
+                }
+            }
+            json!({"some": true, "index": s.index, "name": sbytes(&s.name), "slots": slots, "facewear": w32(s.facewear.unwrap_or(0))})
+        }
+    }).collect();
+    json!({"current": g.current_gearset, "n": g.gearsets.len(), "sets": sets})
+}
+
+pub fn run(_st: &mut State, op: &str, cmd: &Value) -> Value {
+    match op {
+        "user.chardat.write" => {
+            let Some(c) = build_char(cmd) else {
+                return toolerror("bad character record");
+            };
+            guarded(|| {
+                let Some(b) = c.write_to_buffer() else { return fail(); };
+                let parsed = CharacterData::from_existing(&b);
+                let pv = opt(parsed.as_ref(), project_char);
+                let rew = opt(parsed.and_then(|p| p.write_to_buffer()), |x| bytes(&x));
+                value(json!({"bytes": bytes(&b), "parsed": pv, "rewritten": rew}))
+            })
+        }
+        "user.chardat.parse" => {
+            let b = get_bytes(&cmd["bytes"]);
+            guarded(|| {
+                let parsed = CharacterData::from_existing(&b);
+                let pv = opt(parsed.as_ref(), project_char);
+                let rew = opt(parsed.and_then(|p| p.write_to_buffer()), |x| bytes(&x));
+                value(json!({"parsed": pv, "rewritten": rew}))
+            })
+        }
+        "user.gear.parse" => {
+            let b = get_bytes(&cmd["file"]);
+            guarded(|| {
+                let parsed = GearSets::from_existing(&b);
+                let pv = opt(parsed.as_ref(), project_gear);
+                let rew = opt(parsed.and_then(|p| p.write_to_buffer()), |x| json!(x == b));
+                value(json!({"parsed": pv, "rewritten_same": rew}))
+            })
+        }
+        "user.gear.write" => {
+            // a table set through the public fields of a handle parsed from a blank file
+            let blank = unrle(&cmd["_blank"]);
+            guarded(|| {
+                let Some(mut g) = GearSets::from_existing(&blank) else { return fail(); };
+                g.current_gearset = geti(cmd, "current") as u8;
+                let mut sets: Vec<Option<GearSet>> = vec![None; 100];
+                for s in cmd["sets"].as_array().cloned().unwrap_or_default() {
+                    let k = geti(&s, "k") as usize;
+                    let mut gs = GearSet::default();
+                    gs.index = geti(&s, "index") as u8;
+                    gs.name = get_str(&s["name"]);
+                    for sl in s["slots"].as_array().cloned().unwrap_or_default() {
+                        let Some(t) = slot_type(geti(&sl, "s") as usize - 1) else { continue; };
+                        let mut x = GearSlot::default();
+                        x.id = get_w32(&sl["id"]);
+                        let gl = get_w32(&sl["glam"]);
+                        x.glamour_id = if gl == 0 { None } else { Some(gl) };
+                        gs.slots.insert(t, x);
+                    }
+                    let fw = get_w32(&s["facewear"]);
+                    gs.facewear = if fw == 0 { None } else { Some(fw) };
+                    if k >= 1 && k <= 100 {
+                        sets[k - 1] = Some(gs);
+                    }
+                }
+                g.gearsets = sets;
+                let Some(b) = g.write_to_buffer() else { return fail(); };
+                let parsed = GearSets::from_existing(&b);
+                value(json!({"file": bytes(&b), "parsed": opt(parsed.as_ref(), project_gear)}))
+            })
+        }
+        _ => toolerror(&format!("unknown op {op}")),
+    }
 }
